@@ -35,3 +35,74 @@ def run(res, tier):
                 "contents symbolic); non-trivial = CBMC reported SUCCESSFUL and at least one "
                 "kani::cover! reachability witness was SATISFIED; evaluations = CBMC checks decided")
     run_kani_part(res, SPEC, tier)
+    check_batch(res)
+
+
+def check_batch(res):
+    """RouteValidityList::from_requests (validate --input, POST /validity): every request is answered by
+    RouteValidity::new on that request's own prefix and origin AS (M engine; native replay on a difference)."""
+    import re
+    import mir
+    import mprop
+    E = mprop.engine(res)
+    res.engines.append("M: symbolic execution of the MIR of RouteValidityList::from_requests")
+    body = E.prog.find("src/validity.rs", "RouteValidityList", "from_requests")
+    res.functions.append("routinator::validity::RouteValidityList::from_requests (+ its closure) (MIR)")
+    req_fields = mir.struct_fields("Request", "src/validity.rs")
+    i_p, i_a = req_fields.index("prefix"), req_fields.index("asn")
+    problems = []
+    n = 0
+
+    def from_item(leaf, item_id, idx):
+        return isinstance(leaf, mir.Opq) and re.match(r"o%dderef\.%d$" % (item_id, idx), leaf.origin or "") is not None
+
+    paths = [p for p in E.explore(body, max_visits=3, nomut=[r"."]) if p.kind == "return"]
+    mapped = [p for p in paths if p.has(r"Iterator::map$") and p.has(r"Iterator::collect$")]
+    if mapped and len(mapped) == len(paths):
+        closures = [bs[0] for nm, bs in E.prog.bodies.items() if re.search(r"from_requests::\{closure#\d+\}$", nm)]
+        if len(closures) != 1:
+            res.inconclusive.append("from_requests: %d closures (one expected)" % len(closures))
+        for cb in closures:
+            item = mir.Opq("&validity::Request", "request")
+            for p in E.explore(cb.parse(), max_visits=2, nomut=[r"."], arg_values={"_2": {(): item}}):
+                if p.kind != "return":
+                    continue
+                n += 1
+                new = [e for e in p.events if e.kind == "call" and re.search(r"RouteValidity::new$", e.name)]
+                ret = p.ret.get(())
+                if len(new) != 1 or not (isinstance(ret, mir.Opq) and isinstance(new[0].dest.get(()), mir.Opq) and ret.id == new[0].dest.get(()).id):
+                    problems.append((p, "a request is not answered by exactly one RouteValidity::new result"))
+                elif not (from_item(new[0].args[0].get(()), item.id, i_p) and from_item(new[0].args[1].get(()), item.id, i_a)):
+                    problems.append((p, "RouteValidity::new is not called with the request's own prefix and origin AS"))
+    else:
+        # explicit loop: whatever is pushed in an iteration is RouteValidity::new of that iteration's request
+        for p in paths:
+            evs = p.events
+            for x, e in enumerate(evs):
+                if not (e.kind == "call" and re.search(r"Vec::<.*>::push$|Vec::push$", e.name) and len(e.args) > 1):
+                    continue
+                n += 1
+                start = max([y for y, f in enumerate(evs[:x]) if f.kind == "call" and f.name.endswith("Iterator::next")] or [0])
+                nxt = evs[start].dest.get((("v", "Some"), ("f", 0))) if evs[start].dest else None
+                new = [f for f in evs[start:x] if f.kind == "call" and re.search(r"RouteValidity::new$", f.name)]
+                v = e.args[1].get(())
+                if not new or not (isinstance(v, mir.Opq) and isinstance(new[-1].dest.get(()), mir.Opq) and v.id == new[-1].dest.get(()).id):
+                    problems.append((p, "an entry of the batch result is not the RouteValidity::new result for its own request (it is %r)" % (v,)))
+        if not n:
+            res.inconclusive.append("from_requests: neither a map/collect nor a push loop found")
+    res.distinct += n
+    res.samples.append({"batch_obligations": n, "shape": "map/collect" if mapped and len(mapped) == len(paths) else "loop"})
+    if problems:
+        import nativetest
+        failed, passed, out = nativetest.run_native_test("native_c20", "c20_native_batch_equals_single")
+        m = re.search(r"C20-NATIVE-BATCH (.*)", out)
+        res.evaluations += 1
+        p, what = problems[0]
+        fn = mprop.write_cex(res, "batch_entry", p, E, what + "\n\nnative replay: " + (m.group(1) if m else out[-2000:]))
+        if failed:
+            res.violation("mir:batch-entry-not-own-verdict", "validate --input / POST /validity: " + what + "; reproduced natively: " + (m.group(1)[:400] if m else "test failed"), fn)
+        elif passed:
+            res.inconclusive.append("batch path: %s - not reproduced natively" % what)
+        else:
+            res.inconclusive.append("batch path: %s - native replay could not be built" % what)
+    mprop.finish_engine(res, E)
